@@ -183,6 +183,11 @@ def handle (j : Json) : R Json := do
       | some _, none => "mirror"
       | none, some _ => "unusable-error"
       | none, none => Json.null)]
+  | "judge_wake" =>
+    let (before, ok1) ← parseCache tables (← fld j "before")
+    let (after, ok2) ← parseCache tables (← fld j "after")
+    let calls ← (← fldArr j "calls").mapM (parseCall tables)
+    return Json.mkObj [("ok", Json.bool (wakeOkB before (calls.map (·.1)) after && ok1 && ok2))]
   | "rebuild" =>
     let e := makeSecopError tables (← optS (← fld j "cls")) (← getStr (← fld j "text"))
     return Json.mkObj [("pycls", jstr e.pycls), ("name", jstr e.name), ("arg", jstr e.arg), ("fmt", jstr (formatErr tables e))]
